@@ -93,9 +93,44 @@ class LockRoles:
                         self.locked_props.add(f.name)
         # CNT: int attribute initialised to 0 and augmented in acquire
         self.cnt = None
+        acq_incs = []
         for n in own_nodes(self.acquire.node):
             if isinstance(n, ast.AugAssign) and isinstance(n.target, ast.Attribute) and isinstance(n.op, ast.Add):
-                self.cnt = n.target.attr
+                acq_incs.append(n.target.attr)
+        if len(set(acq_incs)) > 1:
+            # several counters are incremented: the depth counter is the one that is also decremented / re-assigned
+            # outside the constructor (a write-only statistics counter is not)
+            other_writes = set()
+            for f in [s_ for s_ in u.functions() if s_.enclosing_class() is cls and s_ is not self.init]:
+                for n in own_nodes(f.node):
+                    if isinstance(n, ast.AugAssign) and isinstance(n.target, ast.Attribute) and not isinstance(n.op, ast.Add):
+                        other_writes.add(n.target.attr)
+                    elif isinstance(n, (ast.Assign, ast.AnnAssign)):
+                        for t_ in (n.targets if isinstance(n, ast.Assign) else [n.target]):
+                            if isinstance(t_, ast.Attribute):
+                                other_writes.add(t_.attr)
+            acq_incs = [a_ for a_ in acq_incs if a_ in other_writes]
+        if acq_incs:
+            self.cnt = acq_incs[-1]
+        if self.cnt is None:
+            # ... or in a private helper of the class: the attribute that the constructor sets to an int literal (or that
+            # some method decrements) and that some method increments
+            int_attrs = set()
+            for n in own_nodes(self.init.node):
+                if isinstance(n, (ast.Assign, ast.AnnAssign)) and getattr(n, 'value', None) is not None:
+                    tg = n.targets[0] if isinstance(n, ast.Assign) else n.target
+                    if isinstance(tg, ast.Attribute) and isinstance(n.value, ast.Constant) and isinstance(n.value.value, int) \
+                            and not isinstance(n.value.value, bool):
+                        int_attrs.add(tg.attr)
+            incs = set()
+            for f in [s_ for s_ in u.functions() if s_.enclosing_class() is cls]:
+                for n in own_nodes(f.node):
+                    if isinstance(n, ast.AugAssign) and isinstance(n.target, ast.Attribute) and isinstance(n.op, ast.Add) \
+                            and isinstance(n.target.value, ast.Name) and n.target.value.id == 'self':
+                        incs.add(n.target.attr)
+            cand = sorted(incs & int_attrs) or sorted(incs)
+            if len(cand) == 1:
+                self.cnt = cand[0]
         missing = [k for k in ('fd', 'cnt') if getattr(self, k) is None]
         if missing:
             raise AnalysisError(f'FileLock roles not found: {missing}')
@@ -1270,6 +1305,63 @@ def _assign_conc(tg: ast.AST, value: ast.AST, env: Dict[str, object], default_at
             env.pop(nm, None)     # a local that does not matter (id(self), a file name, ...); if it does, its next use is not understood
 
 
+def _conc_reach(stmts: List[ast.stmt], env: Dict[str, object], default_attr: str, default_val: float, target: ast.AST, depth: int = 0):
+    """Fold the statements up to the one that evaluates *target* (the thread-lock acquire call), following into a private
+    helper method of the class when the call sits there; returns the environment in which *target*'s arguments are to be
+    read (the caller's *env* holds the values at the level of the statements given), or None if it is not reached."""
+    def holder(st: ast.stmt):
+        """the call `self._helper(...)` in *st* whose helper (transitively) contains the target"""
+        for x in ast.walk(st):
+            if isinstance(x, ast.Call) and isinstance(x.func, ast.Attribute) and isinstance(x.func.value, ast.Name) \
+                    and x.func.value.id == 'self' and x.func.attr in _CONC_HELPERS:
+                fn = _CONC_HELPERS[x.func.attr]
+                if any(y is target for y in ast.walk(fn)):
+                    return x, fn
+        return None
+    found: List[Dict[str, object]] = []
+
+    def stop(st: ast.stmt) -> bool:
+        if any(x is target for x in ast.walk(st)):
+            found.append(env)
+            return True
+        h = holder(st) if depth < 3 else None
+        if h is not None:
+            call, fn = h
+            a = fn.args
+            if a.vararg or a.kwarg or a.posonlyargs or any(isinstance(z, ast.Starred) for z in call.args) or any(k.arg is None for k in call.keywords):
+                raise _NotUnderstood(norm(call))
+            names = [z.arg for z in a.args][1:]
+            loc: Dict[str, object] = {}
+            for nm, d in zip(reversed([z.arg for z in a.args]), reversed(a.defaults)):
+                loc[nm] = _conc(d, {}, default_attr, default_val)
+            for kw, d in zip(a.kwonlyargs, a.kw_defaults):
+                if d is not None:
+                    loc[kw.arg] = _conc(d, {}, default_attr, default_val)
+
+            def val(e_):
+                try:
+                    return _conc(e_, env, default_attr, default_val)
+                except _NotUnderstood:
+                    return _UNKNOWN
+            for nm, z in zip(names, call.args):
+                loc[nm] = val(z)
+            for k in call.keywords:
+                loc[k.arg] = val(k.value)
+            loc = {k: v for k, v in loc.items() if v is not _UNKNOWN}
+            inner = _conc_reach(fn.body, loc, default_attr, default_val, target, depth + 1)
+            if inner is None:
+                raise _NotUnderstood('thread-lock acquire not reached in ' + fn.name)
+            found.append(inner)
+            return True
+        return False
+    if _exec_conc(stmts, env, default_attr, default_val, stop) and found:
+        return found[0]
+    return None
+
+
+_UNKNOWN = object()
+
+
 def _exec_conc(stmts: List[ast.stmt], env: Dict[str, object], default_attr: str, default_val: float, stop) -> bool:
     """Fold the leading normalisation statements for concrete inputs; True once `stop` is reached."""
     for s_ in stmts:
@@ -1391,15 +1483,16 @@ def _rule_arguments(ctx: Ctx, r: LockRoles) -> None:
             for dv in (-1, 0, 2.5):
                 env_c: Dict[str, object] = {bp: b, tp: tv_}
                 try:
-                    if not _exec_conc(acq.node.body, env_c, default_attr or 'timeout', dv, stmt_of):
+                    env_tl = _conc_reach(acq.node.body, env_c, default_attr or 'timeout', dv, tlc)
+                    if env_tl is None:
                         raise _NotUnderstood('thread-lock acquire not reached')
-                    got_b = _conc(tlc.args[0], env_c, default_attr, dv) if tlc.args else True
-                    got_t = _conc(tlc.args[1], env_c, default_attr, dv) if len(tlc.args) > 1 else -1
+                    got_b = _conc(tlc.args[0], env_tl, default_attr, dv) if tlc.args else True
+                    got_t = _conc(tlc.args[1], env_tl, default_attr, dv) if len(tlc.args) > 1 else -1
                     for k in tlc.keywords:
                         if k.arg == 'blocking':
-                            got_b = _conc(k.value, env_c, default_attr, dv)
+                            got_b = _conc(k.value, env_tl, default_attr, dv)
                         if k.arg == 'timeout':
-                            got_t = _conc(k.value, env_c, default_attr, dv)
+                            got_t = _conc(k.value, env_tl, default_attr, dv)
                     got_os = _conc(blk0, env_c, default_attr, dv) if blk0 is not None else True
                 except _NotUnderstood as ex_:
                     not_understood = str(ex_)
